@@ -243,7 +243,7 @@ def gen_stft(run):
     for hop in [None] + list(range(1, size + 1)):
       for n in range(0, nmax + 1):
         for func in FUNCS:
-          for trans in (False, True):
+          for trans in (False, True, "pad"):
             for ba in (False, True):
               for wk in ("none", "list", "callable"):
                 for ola in ("list", "none", "fake"):
@@ -277,10 +277,12 @@ def run_stft(case):
     return [v for v in blk]
   def T(blk, sz):
     log.append(("transform", sz))
-    return [2 * v for v in blk]
+    out = [2 * v for v in blk]
+    return out + [Q(99)] if trans == "pad" else out     # "pad": one extra bin, like a one-sided spectrum
   def Ti(blk, sz):
     log.append(("inverse", sz))
-    return [v / 2 for v in blk]
+    blk = list(blk)
+    return [v / 2 for v in (blk[:sz] if trans == "pad" else blk)]
   fake_calls = []
   def fake_ola(blks, **kw):
     fake_calls.append(dict(kw))
@@ -297,6 +299,11 @@ def run_stft(case):
   if ola_wnd == "None": kws["ola_wnd"] = None
   elif ola_wnd == "list": kws["ola_wnd"] = list(owvals)
   if ola_norm != "absent": kws["ola_normalize"] = ola_norm
+  extra_ola = {}
+  if olak == "fake":
+    extra_ola = {"alpha": 3, "lag": 1, "_x": 2, "ola": 5, "offset": 0}
+    for k, v in extra_ola.items():
+      kws["ola_" + k] = v
   nt = True
   try:
     if style == "direct":
@@ -350,10 +357,13 @@ def run_stft(case):
       data = [2 * v for v in data]
     stage_names.append("func")
     exp_func_inputs.append(list(data))
+    if trans == "pad":
+      data = data + [Sym.lift(Q(99))]
+      exp_func_inputs[-1] = list(data)
     data = {"identity": data, "reverse": data[::-1], "scale": [3 * v for v in data]}[fname]
     if trans:
       stage_names.append("inverse")
-      data = [v / 2 for v in data]
+      data = [v / 2 for v in data[:size]] if trans == "pad" else [v / 2 for v in data]
     if ba: stage_names.append("after")
     exp_blocks.append(data)
   if [l[0] for l in log] != stage_names:
@@ -377,6 +387,7 @@ def run_stft(case):
   if ola_wnd == "None": ola_kw["wnd"] = None
   elif ola_wnd == "list": ola_kw["wnd"] = list(owvals)
   if ola_norm != "absent": ola_kw["normalize"] = ola_norm
+  ola_kw.update(extra_ola)
   if style == "partial-reassign":
     if hop is None:
       ola_kw["hop"] = size
